@@ -578,6 +578,9 @@ def run(P, R, tier):
     from . import c11
     c11.matcher(P, Remap(R, {'C11.FMT.1': 'C05.FMT.2', 'C11.GRD.2': 'C05.GRD.2', 'C11.GRD.3': 'C05.GRD.2'}))
     slices(P, R)
+    # an account is stamped for `OK <account>`, not for a text that begins with the two letters
+    from . import c02 as _c02d
+    _c02d.decoys_unrecognised(P, R, 'C05.TAB.6')
     w = account_writers(P, R)
     account_copy(P, R, w)
     account_nonempty(P, R, w)
